@@ -60,8 +60,10 @@ TEXT = {
           "true exactly when an integer lies in the set (C13_containsInt, C13_set_containsInt, via floor / ceiling); a list in that "
           "normal form is non-empty, increasing and pairwise separated (nfs_nfw, so the theorems about normal forms apply to every "
           "union), and emptiness, the single-point test and fullness agree with the denoted set (C13_isEmpty, C13_isPoint, "
-          "C13_isFull: a normal form containing every real is the single interval (-inf,+inf)). Status bits, normal "
-          "form of intersections, integer counts and picking are tied by correspondence only (exhaustive over all "
+          "C13_isFull: a normal form containing every real is the single interval (-inf,+inf)); a count reported by "
+          "lp_interval_count_int is the number of integers in the interval (C13_countInt: closed integer ends plus the integers m..n "
+          "strictly inside, disjoint). Status bits, normal form of intersections, the saturation of counts, their sum over a set "
+          "and picking are tied by correspondence only (exhaustive over all "
           "128x128 normal-form sets on the atoms of {0,1,2}, 512x512 in the thorough tier, plus random pools with algebraic end points, "
           "half of them handed over with the unrefined isolating interval of the root isolation; pick / contains_int / count_int also on "
           "every interval separately).",
